@@ -1053,7 +1053,8 @@ class Runner:
     def piece(self, pre, y, want_text, off, prop_text, clause):
         """result y must have text want_text and the settings of pre at offset off"""
         if y._s != want_text:
-            return [(prop_text, clause, '%r vs %r' % (y._s, want_text))]
+            return [(prop_text, clause, '%r vs %r' % (y._s, want_text)),
+                    ('C11', 'piece_offset', '%s: the piece %r is not the text %r at its true offset, so it cannot carry those characters\' settings' % (clause, y._s, want_text))]
         ay = O.acts(y)
         for k in range(len(want_text)):
             if not O.same_prec(ay[k], pre.acts[off + k]):
@@ -1087,6 +1088,13 @@ class Runner:
         t = x._s
         r = rng.random()
         kind = rng.choice(['split', 'rsplit', 'splitlines', 'partition', 'rpartition'])
+        if kind == 'splitlines' and rng.random() < 0.5:
+            # a value with assorted line ends and non-uniform formatting
+            t = ''.join(rng.choice(['a', 'b', 'cd', '\r\n', '\n', '\r', '\n\n', '\x0c', ' ']) for _ in range(rng.randint(2, 7)))
+            x = self.A(t, rng.choice(['red', 'bold']))
+            if len(t) > 2:
+                x.apply_formatting('blue', rng.randint(0, len(t) - 1), rng.randint(1, len(t)))
+            self.add_live(x)
         ids = P.InIds()
         pre = O.Snap(x)
         if kind in ('split', 'rsplit'):
@@ -1124,6 +1132,7 @@ class Runner:
             ys = out[1]
             if [y._s for y in ys] != want:
                 viol.append(('C10', kind + '_text', '%r vs %r' % ([y._s for y in ys], want)))
+                viol.append(('C11', 'piece_offset', '%s: pieces %r are not the str pieces %r' % (kind, [y._s for y in ys], want)))
             else:
                 offs = true_offsets(t, want, kind, sep)
                 if offs is not None:
